@@ -11,6 +11,43 @@ G = "distributed::gather"
 SUBQ = ("ScalarSubquery", "InSubquery", "Exists")
 
 
+def _deferred(F, g, calls, cs, clo):
+    """second accepted shape: the arm (inside a visitor closure) pushes the sub-plan onto a captured collection, and the
+    function that built the closure later passes elements of that collection to the plan walker"""
+    if F.bodies[g.path]["kind"] != "closure":
+        return False
+    caps = set()
+    for c in calls:
+        if c.name.rsplit("::", 1)[-1] in ("push", "extend", "insert", "push_back") and c.args:
+            o = origin(g, c.args[0])
+            pl = o[1] if o[0] == "place" else (o[1][2] if o[0] == "rv" and o[1][0] == "ref" else None)
+            if pl and pl.startswith("1|*|f:"):
+                caps.add(int(pl.split("|")[2].split(":")[1]))
+    if not caps:
+        return False
+    parent = F.fn(g.path.rsplit("::{closure", 1)[0])
+    for i, j, dst, rv, line in parent.stmts():
+        if rv[0] == "agg" and rv[1] == "closure:" + g.path:
+            for n in caps:
+                if n >= len(rv[2]):
+                    continue
+                o = origin(parent, rv[2][n])
+                if o[0] == "call":
+                    coll = place_local(o[1].dest)
+                elif o[0] == "rv" and o[1][0] == "ref":
+                    coll = place_local(o[1][2])
+                elif o[0] == "place":
+                    coll = place_local(o[1])
+                else:
+                    continue
+                for w in parent.calls():
+                    if (w.name == cs.path or w.name in clo) and w.name != "distributed::plan::visit_expr":
+                        hit = derives_from(parent, w.args, lambda k, x: k == "place" and place_local(x) == coll and x)
+                        if hit:
+                            return True
+    return False
+
+
 def run(F, R):
     R.rule("C45.R1", "K6 walker completeness", "collect_scans' closure has arms on Expr::{ScalarSubquery,InSubquery,Exists} that reach collect_scans again")
     R.rule("C45.R2", "K7", "Some(indices) arm reads scan.filter and inserts its columns; empty set -> first field")
@@ -33,6 +70,8 @@ def run(F, R):
                             # the arm must lead back into the plan walker
                             calls = calls_in_lines(g, a["span"])
                             if any(c.name == cs.path or c.name in clo for c in calls):
+                                seen.add(h)
+                            elif _deferred(F, g, calls, cs, clo):
                                 seen.add(h)
     missing = sorted(set(SUBQ) - seen)
     R.check(children_walks_exprs or not missing, "C45.R1", "collect_scans:subquery-plans-visited",
